@@ -133,9 +133,20 @@ def decodeTSDTime (data : List Nat) : Option (Nat × Nat) :=
 end LinVerif.Tsd
 
 namespace LinVerif.FixedOffset
+open LinVerif.Varint
 
 /-- `encoding.ByteSlice2Uint32(slice)`: `copy` into a zeroed 4-byte buffer, little endian -/
 def byteSlice2Uint32 (bs : List Nat) : Nat :=
   bs.getD 0 0 + 256 * bs.getD 1 0 + 65536 * bs.getD 2 0 + 16777216 * bs.getD 3 0
+
+/-- `FixedOffsetEncoder.Write(writer)`: the `writer.Write` calls in order — width flag, size, one cell per value -/
+def Enc.chunks (e : Enc) : List (List Nat) :=
+  if e.values = [] then []
+  else [[e.width], putUvarint e.values.length] ++ e.values.map (fun v => leBytes e.width (toU32 v))
+
+/-- `Write(writer)` against a writer that accepts `accept` calls and fails the next one: the chunks it took and
+whether `Write` returns an error (it returns at the FIRST failing call) -/
+def Enc.writeTo (e : Enc) (accept : Nat) : List (List Nat) × Bool :=
+  (e.chunks.take accept, decide (accept < e.chunks.length))
 
 end LinVerif.FixedOffset
